@@ -533,8 +533,8 @@ def _block(iterator: Iterable[str], indent: str) -> str:
 # is a single-line, adding a leading blank line would strip that whitespace.
 def _block_string(value: str, indent: str, is_description: bool = False) -> str:
     escaped = value.replace('"""', '\\"""')
-    if (value[0] == " " or value[0] == "\t") and "\n" not in value:
-        if escaped.endswith('"'):
+    if value and (value[0] == " " or value[0] == "\t") and "\n" not in value:
+        if escaped.endswith('"') or escaped.endswith("\\"):
             escaped = escaped + "\n"
         return '"""%s"""' % escaped
     return '"""\n%s\n"""' % (
